@@ -24,6 +24,14 @@ def corpus():
     # back-pressure: a request taken inside the re-idle window while the peer does not read; the window's timer must not touch the write
     out.append((L.Sched(labels=["D0", "c1:" + e("one"), "S*", "D0", "S*", "D0", "p", "i2:" + e("two") + "," + e("three"), "t150", "u"] + L.flush(2), note="blocked write inside the window"),
                 {"requests": {1: ("c", [e("one")]), 2: ("i", [e("two"), e("three")])}, "cancelled": set(), "notified": [], "fault_free": True}))
+    # the idle reply arrives in three pieces and the request is issued between the second and the third
+    for k in range(1, 18):
+        out.append((L.Sched(labels=["D0", "S*", "N:" + hexs("player"), f"D{k}", "D1", "c1:" + e("one"), "D0", "S*", "D0"] + L.flush(1), note=f"idle reply in three pieces ({k})"),
+                    {"requests": {1: ("c", [e("one")])}, "cancelled": set(), "notified": ["player"], "fault_free": True}))
+    # far more requests pending at once than any bounded queue would take
+    reqs = {i: ("c", [e(f"q{i}")]) for i in range(1, 201)}
+    out.append((L.Sched(labels=["D0"] + [f"c{i}:" + e(f"q{i}") for i in range(1, 201)] + L.flush(200), note="200 callers at once"),
+                {"requests": reqs, "cancelled": set(), "notified": [], "fault_free": True}))
     return out
 
 
